@@ -161,7 +161,9 @@ def _wrap_raw(raw, mode, buffering):
     """Rebuild what io.open would have returned for a binary file around `raw`."""
     if buffering == 0:
         return raw
-    bs = buffering if buffering and buffering > 1 else io.DEFAULT_BUFFER_SIZE
+    # like io.open: default buffer size = the file's st_blksize (4096 on tmpfs, so raw write(2)s
+    # are as fine-grained as in an uninterposed process; cross-checked by tools/strace_crosscheck.py)
+    bs = buffering if buffering and buffering > 1 else getattr(raw, "_blksize", io.DEFAULT_BUFFER_SIZE)
     if "+" in mode:
         return io.BufferedRandom(raw, bs)
     if _mode_writes(mode):
